@@ -106,6 +106,8 @@ def run : Handler := fun j => do
   let m ← getNat j "m"
   let eps ← ratOf (← j.getObjVal? "eps")
   let consts ← getRatList j "consts"
+  let k1 ← (match j.getObjVal? "k1" with | .ok v => ratOf v | .error _ => pure (1 : Rat))
+  let k2 ← (match j.getObjVal? "k2" with | .ok v => ratOf v | .error _ => pure (1 : Rat))
   let implRecs ← getImplRecs j
   let wf := wellFormed t X m eps
   let treePred := X.map fun x => treePredict t x
@@ -136,12 +138,21 @@ def run : Handler := fun j => do
     let scaled := consts.map fun c =>
       let (self1, prod) := mul L c
       let q := truediv L c
-      Json.mkObj [("c", jRat c),
+      -- in-place histories on the results: `p *= k1; p /= k2` and `q /= k2; q *= k1` (`__itruediv__` = `__imul__(1/k)`)
+      let p1 := imul prod k1
+      let p2 := imul p1 (1 / k2)
+      let divs : List (String × Json) := match q with
+        | none => [("div", Json.mkObj [("err", Json.str "ZeroDivisionError")])]
+        | some (_, quo) =>
+          let q1 := imul quo (1 / k2)
+          let q2 := imul q1 k1
+          [("div", exceptRats (predict quo X m id)), ("div_idiv", exceptRats (predict q1 X m id)),
+           ("div_idiv_imul", exceptRats (predict q2 X m id))]
+      Json.mkObj ([("c", jRat c),
         ("mul", exceptRats (predict prod X m id)),
-        ("div", match q with
-          | none => Json.mkObj [("err", Json.str "ZeroDivisionError")]
-          | some (_, quo) => exceptRats (predict quo X m id)),
-        ("pure", Json.bool (self1 == L && (match q with | none => true | some (s, _) => s == L)))]
+        ("mul_imul", exceptRats (predict p1 X m id)),
+        ("mul_imul_idiv", exceptRats (predict p2 X m id)),
+        ("pure", Json.bool (self1 == L && (match q with | none => true | some (s, _) => s == L)))] ++ divs)
     pure (Json.mkObj (base ++ [("conv", conv), ("recs", recs), ("hyps", hyps), ("pred", exceptRats pred),
       ("order_indep", Json.bool ((exceptRats pred).compress == (exceptRats predRev).compress)), ("scaled", Json.arr scaled.toArray)]))
 
